@@ -19,7 +19,7 @@
       (which temp holds what, which final names are linked / durably linked / referenced);
    3. the library's programs: publish_meta, publish_data (their call sequences are REGENERATED from
       the source: Gen/GenDurable.v), and a commit as their concatenation in
-      the code's order; an operation history is a list of commits.
+      the code's order; an operation history is a list of commits and rolled-back transactions.
 
    Path classes are syntactic: `T d n` is a temporary name (mkstemp / NamedTemporaryFile) destined
    for the final name `P d n` in directory d.  `PTR` is the version pointer. *)
@@ -275,13 +275,30 @@ Definition commit_cleanup (c : commit) : list call :=
 
 Definition trace_of_commit (c : commit) : list call := commit_body c ++ commit_cleanup c.
 
-Definition trace_of (ops : list commit) : list call := flat_map trace_of_commit ops.
+(* A transaction that wrote data files and was then rolled back (Transaction._rollback: the written
+   data files are deleted, then their markers); nothing else was written and the pointer is untouched. *)
+Definition abort_trace (its : list item) : list call :=
+  flat_map (pub_item true) its
+  ++ map (fun it => Unlink (pf_path (it_file it))) its
+  ++ map (fun it => Unlink (pf_path (it_marker it))) its.
+
+Inductive op := OCommit (c : commit) | OAbort (its : list item).
+
+Definition trace_of_op (o : op) : list call :=
+  match o with OCommit c => trace_of_commit c | OAbort its => abort_trace its end.
+
+Definition trace_of (ops : list op) : list call := flat_map trace_of_op ops.
 
 (* files a commit leaves behind (markers excluded), and every final name it uses *)
 Definition files_of_commit (c : commit) : list pubfile := map it_file (items c) ++ [c_meta c].
-Definition files_of (ops : list commit) : list pubfile := flat_map files_of_commit ops.
 Definition names_of_commit (c : commit) : list path :=
   map (fun it => pf_path (it_marker it)) (items c) ++ map pf_path (files_of_commit c).
+Definition names_of_abort (its : list item) : list path :=
+  map (fun it => pf_path (it_marker it)) its ++ map (fun it => pf_path (it_file it)) its.
+
+Definition files_of_op (o : op) : list pubfile := match o with OCommit c => files_of_commit c | OAbort _ => [] end.
+Definition names_of_op (o : op) : list path := match o with OCommit c => names_of_commit c | OAbort its => names_of_abort its end.
+Definition files_of (ops : list op) : list pubfile := flat_map files_of_op ops.
 
 Fixpoint lookup_pub (k : path) (l : list pubfile) : option content :=
   match l with
@@ -290,13 +307,13 @@ Fixpoint lookup_pub (k : path) (l : list pubfile) : option content :=
   end.
 
 (* the content the history intends file k to have *)
-Definition intended (ops : list commit) (k : path) : option content := lookup_pub k (files_of ops).
+Definition intended (ops : list op) (k : path) : option content := lookup_pub k (files_of ops).
 
 (* k' is referenced by the intended content of k *)
-Definition refers (ops : list commit) (k k' : path) : Prop :=
+Definition refers (ops : list op) (k k' : path) : Prop :=
   exists c, intended ops k = Some c /\ In k' (refs c).
 
-Inductive reachable_from (ops : list commit) : path -> path -> Prop :=
+Inductive reachable_from (ops : list op) : path -> path -> Prop :=
 | reach_self : forall v, reachable_from ops v v
 | reach_step : forall v k k', reachable_from ops v k -> refers ops k k' -> reachable_from ops v k'.
 
@@ -329,15 +346,26 @@ Definition wf_commit (used avail : list path) (c : commit) : bool :=
   && wf_pubs avail (files_of_commit c)
   && match refs (c_ptr c) with [v] => path_eqb v (pf_path (c_meta c)) | _ => false end.
 
-Fixpoint wf_from (used avail : list path) (ops : list commit) : bool :=
+Definition no_refs (f : pubfile) : bool := match refs (pf_content f) with [] => true | _ => false end.
+
+Definition wf_abort (used : list path) (its : list item) : bool :=
+  forallb name_ok (names_of_abort its)
+  && nodup_b (names_of_abort its)
+  && forallb (fun p => negb (mem p used)) (names_of_abort its)
+  && forallb (fun it => no_refs (it_marker it) && no_refs (it_file it)) its.
+
+Definition wf_op (used avail : list path) (o : op) : bool :=
+  match o with OCommit c => wf_commit used avail c | OAbort its => wf_abort used its end.
+
+Fixpoint wf_from (used avail : list path) (ops : list op) : bool :=
   match ops with
   | [] => true
-  | c :: ops' =>
-      wf_commit used avail c
-      && wf_from (names_of_commit c ++ used) (map pf_path (files_of_commit c) ++ avail) ops'
+  | o :: ops' =>
+      wf_op used avail o
+      && wf_from (names_of_op o ++ used) (map pf_path (files_of_op o) ++ avail) ops'
   end.
 
-Definition wf (ops : list commit) : bool := wf_from [] [] ops.
+Definition wf (ops : list op) : bool := wf_from [] [] ops.
 
 (* ------------------------------------------------------------------------------------------ *)
 (* 5. the safety statement on states (no ghost)                                                 *)
